@@ -449,7 +449,9 @@ type reuseWorld struct {
 	us usegWorld
 
 	retained []*retained
-	trace    uint64
+	// retention entries that become active after the current op (the op itself is a call on that face)
+	pendingFace []func()
+	trace       uint64
 	states   map[string]bool
 	prevKind string
 }
@@ -496,7 +498,20 @@ func runReuse(c *ReuseCase) (*kernel.Outcome, error) {
 			w.state("pair:" + w.prevKind + ">" + op.K)
 		}
 		w.prevKind = op.K
+		// any call that may reach a face is that face's invalidation point
+		switch op.K {
+		case "split", "wrap", "prepare", "nextline":
+			for j := range w.faces {
+				w.invalidate(fmt.Sprintf("face%d", j))
+			}
+		case "shape", "hbshape", "faceq", "facevar", "facecoords", "faceppem":
+			w.invalidate(fmt.Sprintf("face%d", w.face(op.F)))
+		}
 		v := w.exec(op)
+		for _, f := range w.pendingFace {
+			f()
+		}
+		w.pendingFace = nil
 		if v == nil {
 			v = w.checkRetained(i)
 		}
@@ -790,9 +805,42 @@ func digestFaceQueries(f *font.Face, gids []uint32) string {
 	return sb.String()
 }
 
+func digestGlyphData(d font.GlyphData) string {
+	switch d := d.(type) {
+	case font.GlyphOutline:
+		h := uint64(0)
+		for _, s := range d.Segments {
+			h = kernel.SplitMix64(h ^ kernel.HashString(fmt.Sprint(s)))
+		}
+		return fmt.Sprintf("outline=%d/%x", len(d.Segments), h)
+	case font.GlyphBitmap:
+		return fmt.Sprintf("bitmap=%dx%d/%d/%x", d.Width, d.Height, d.Format, kernel.HashBytes(d.Data))
+	case font.GlyphSVG:
+		return fmt.Sprintf("svg=%x", kernel.HashBytes(d.Source))
+	}
+	return "nodata"
+}
+
 func (w *reuseWorld) opFaceQuery(op *ReuseOp) *kernel.Violation {
 	i := w.face(op.F)
 	var got, want string
+	// glyph data returned by this face must stay intact while OTHER objects are used
+	// (until the next call on the same face, the invalidation point the property names)
+	if !kernel.ReferenceOnly && len(op.Gids) > 0 {
+		var keep []font.GlyphData
+		res := protect(func() {
+			for _, g := range op.Gids[:1] {
+				keep = append(keep, w.faces[i].GlyphData(font.GID(g)))
+			}
+		})
+		if !res.panicked && len(keep) > 0 && keep[0] != nil {
+			group := fmt.Sprintf("face%d", i)
+			w.invalidate(group)
+			w.pendingFace = append(w.pendingFace, func() {
+				w.retain(group, fmt.Sprintf("GlyphData returned by face %d", i), func() string { return digestGlyphData(keep[0]) }, 1)
+			})
+		}
+	}
 	r1 := reused(func() { got = digestFaceQueries(w.faces[i], op.Gids) })
 	clone := w.models[i].newFace()
 	r2 := protect(func() { want = digestFaceQueries(clone, op.Gids) })
